@@ -103,6 +103,12 @@ func (g *specGen) next() callSpec {
 			sf := t.Field(f)
 			if sf.PkgPath == "" && !structish(sf.Type) && rng.Intn(2) == 0 {
 				r := gen.RuleList(rng, sf.Type, 2, fmt.Sprintf("%s_%d", id, f), gen.MsgUnique, false)
+				if rng.Intn(2) == 0 {
+					// same rule keys as the field's own tag, other arguments
+					if pr := gen.PerturbRules(rng, sf.Tag.Get(c08Tags[rng.Intn(3)]), sf.Type, fmt.Sprintf("%s_%d", id, f)); pr != "" {
+						r = pr
+					}
+				}
 				if fnName != "" && rng.Intn(2) == 0 {
 					if r != "" {
 						r += ","
